@@ -254,7 +254,8 @@ class FieldMappingTransformationBase(DetectionItemTransformation):
                     )
                 ]
 
-            # finally map the field name in the condition
+            # finally map the field name in the condition (an alias is a name of the correlation
+            # rule's own, as in the grouping list)
             if (
                 isinstance(rule.condition, SigmaCorrelationCondition)
                 and rule.condition is not None
@@ -263,6 +264,9 @@ class FieldMappingTransformationBase(DetectionItemTransformation):
                 if isinstance(fieldref, list):
                     mapped_fields = []
                     for field in fieldref:
+                        if field in aliases:
+                            mapped_fields.append(field)
+                            continue
                         mapped_field = self._apply_field_name(field)
                         if len(mapped_field) > 1:
                             raise SigmaConfigurationError(
@@ -270,7 +274,7 @@ class FieldMappingTransformationBase(DetectionItemTransformation):
                             )
                         mapped_fields.append(mapped_field[0])
                     rule.condition.fieldref = mapped_fields
-                else:
+                elif fieldref not in aliases:
                     mapped_field = self._apply_field_name(fieldref)
                     if len(mapped_field) > 1:
                         raise SigmaConfigurationError(
